@@ -549,9 +549,18 @@ namespace
                     if ((unsigned char)zone_block[i] != 0x5C) violate(std::string("C10/pool-outside-arena@") + name(), "%s: the pool wrote to byte %zu in front of its zone", when, zoff - i);
                 sh.verify_all(name(), when);
             };
+            uint64_t free_tick = 0;
             auto do_free = [&](char *b) {
                 sh.verify(sh.live[b], name(), "before free");
                 sh.live.erase(b);
+                if (kind != 2 && elsz >= sizeof(void *) && (free_tick++ % 3) != 0)
+                {
+                    // what the block holds when it is given back is the owner's business: here it is a list node whose first word
+                    // still points at a sibling cell of the same pool (or at the block itself), as nodes of an intrusive list do
+                    char *sibling = sh.live.empty() || free_tick % 3 == 1 ? b : sh.live.begin()->first;
+                    memcpy(b, &sibling, sizeof sibling);
+                    probe("block_returned_with_a_pointer_to_a_sibling_cell_in_it");
+                }
                 if (kind == 0) pool_free(&ph, b);
                 else if (kind == 1) ip.put(b);
                 else sop->destroy((Obj *)b);
